@@ -13,6 +13,35 @@ DE = "<&'a mut minicbor_serde::de::Deserializer<'de> as serde::Deserializer<'de>
 SEQSER = "<minicbor_serde::ser::SeqSerializer<'a, W> as serde::ser::%s>::%s"
 SEQ = "<minicbor_serde::de::Seq<'a, 'de> as serde::de::%s<'de>>::%s"
 ENUM = "<minicbor_serde::de::Enum<'a, 'de> as serde::de::%s<'de>>::%s"
+SEQ_ADT = 'minicbor_serde::de::Seq'
+ENUM_ADT = 'minicbor_serde::de::Enum'
+SEQ_LEN_FIELD = 1
+
+
+def access_roles(prog):
+    """the bridge's access types by role, not by name: the type implementing SeqAccess (and MapAccess) with an Option<u64> length
+    next to the deserializer, and the type implementing EnumAccess"""
+    global SEQ, ENUM, SEQ_ADT, ENUM_ADT, SEQ_LEN_FIELD
+    import re
+    for inst in prog.insts.values():
+        p = inst['path']
+        m_ = re.match(r"^<(minicbor_serde::[^ ]+?(?:<.*?>)?) as serde::de::(SeqAccess|EnumAccess)<'de>>::(next_element_seed|variant_seed)$", p)
+        if not m_:
+            continue
+        ty, tr = m_.group(1), m_.group(2)
+        adt = ty.split('<')[0]
+        if adt not in prog.adts:
+            continue
+        if tr == 'SeqAccess':
+            tys = prog.adts[adt]['variants'][0].get('tys') or []
+            lens = [i for i, t_ in enumerate(tys) if t_.replace('core::', 'std::') == 'std::option::Option<u64>']
+            if len(lens) == 1 and len(tys) == 2:
+                SEQ = "<%s as serde::de::%%s<'de>>::%%s" % ty
+                SEQ_ADT = adt
+                SEQ_LEN_FIELD = lens[0]
+        else:
+            ENUM = "<%s as serde::de::%%s<'de>>::%%s" % ty
+            ENUM_ADT = adt
 DESER = "minicbor_serde::de::Deserializer::<'de>::"
 
 VISITS = ['bool', 'i8', 'i16', 'i32', 'i64', 'i128', 'u8', 'u16', 'u32', 'u64', 'u128', 'f32', 'f64', 'char', 'str', 'borrowed_str', 'string',
@@ -77,12 +106,12 @@ def norm(m, st, v):
         return 'self'
     if isinstance(v, Adt):
         nm = v.adt.split('::')[-1]
-        if nm == 'Seq':
-            ln = v.fields[1]
+        if v.adt == SEQ_ADT:
+            ln = v.fields[SEQ_LEN_FIELD]
             if isinstance(ln, Adt) and norm_adt(ln.adt) == OPTION:
                 return 'Seq(%s)' % ('None' if ln.variant == 0 else 'Some(%r)' % (ln.fields[0],))
             return 'Seq(%r)' % (ln,)
-        if nm == 'Enum':
+        if v.adt == ENUM_ADT:
             return 'Enum'
         return repr(v)
     return repr(v)
@@ -672,7 +701,7 @@ def t_de(ctx, prog, half, alloc, label=''):
 
 def seq_value(m, st, lenv):
     de = m.make_value(st, ty_from_str("&mut minicbor_serde::de::Deserializer<'de>"), 'de')
-    return de, Adt('minicbor_serde::de::Seq', 0, [de, lenv])
+    return de, Adt(SEQ_ADT, 0, [de, lenv] if SEQ_LEN_FIELD == 1 else [lenv, de])
 
 
 def t_access(ctx, prog):
@@ -794,7 +823,7 @@ def t_access(ctx, prog):
         st.extra['cur'] = 0
         m = l2.L2Machine(prog, ov)
         de = m.make_value(st, ty_from_str("&mut minicbor_serde::de::Deserializer<'de>"), 'de')
-        en = Adt('minicbor_serde::de::Enum', 0, [de])
+        en = Adt(ENUM_ADT, 0, [de])
         key = '%s|%s' % (meth, fmt([s[1:] for s in stream]))
         try:
             outs = m.run(inst, [en] + extra, st)
@@ -820,7 +849,7 @@ def t_access(ctx, prog):
                 ctx.violation('T-ACCESS.enum', key, 'returns %s after %s consuming %d item(s); expected Ok after %s consuming %d' % (rk, evs, l2.cur(o.st), wantev, wantcur), where)
             if meth == 'variant_seed' and rk == 'Ok':
                 v = o.value.fields[0]
-                if not (isinstance(v, Tup) and isinstance(v.fields[0], Atom) and v.fields[0].name == 'val:x' and isinstance(v.fields[1], Adt) and v.fields[1].adt.endswith('Enum')):
+                if not (isinstance(v, Tup) and isinstance(v.fields[0], Atom) and v.fields[0].name == 'val:x' and isinstance(v.fields[1], Adt) and v.fields[1].adt == ENUM_ADT):
                     good = False
                     ctx.violation('T-ACCESS.enum', key + '|value', 'variant_seed returns %r instead of (identifier, the same access)' % (v,), where)
         if good:
@@ -1241,6 +1270,7 @@ def t_human_readable(ctx, prog):
 
 def run(ctx):
     prog = load.program('serde-full')
+    access_roles(prog)
     half = prog.feature('half', 'minicbor_serde')
     alloc = prog.feature('alloc', 'minicbor_serde') or prog.feature('std', 'minicbor_serde')
     t_ser(ctx, prog)
